@@ -1,12 +1,673 @@
 package main
 
+// Counterexample replay: a `sat` model is turned into a Go test that builds the function's inputs,
+// runs the real function (in its package, via `go test -overlay`, nothing written to the repository),
+// and compares what happens with what the model predicts.
+//
+//   SAFE / PRE / INV / FRAME / DECR obligations: reproduced iff the real run panics.
+//   POST obligations: reproduced iff the real run returns the result values the model predicts
+//   (the solver has shown those values to violate the clause).
+
+import (
+	"bytes"
+	"context"
+	"encoding/json"
+	"fmt"
+	"go/types"
+	"math/big"
+	"os"
+	"os/exec"
+	"path/filepath"
+	"strings"
+	"time"
+
+	"golang.org/x/tools/go/ssa"
+)
+
 type ReplayResult struct {
-	Reproduced bool   `json:"reproduced"`
-	Note       string `json:"note"`
-	Test       string `json:"test_source,omitempty"`
-	Output     string `json:"output,omitempty"`
+	Reproduced bool              `json:"reproduced"`
+	Note       string            `json:"note"`
+	Inputs     map[string]string `json:"inputs,omitempty"`
+	Predicted  map[string]string `json:"predicted_results,omitempty"`
+	Test       string            `json:"test_source,omitempty"`
+	Output     string            `json:"output,omitempty"`
+	Cmd        string            `json:"cmd,omitempty"`
 }
 
+type replayInfo struct {
+	fn      *ssa.Function
+	params  []Val
+	results []Val // for POST obligations: the return values at that return point
+	names   map[string]bool
+}
+
+const replayElems = 160
+
+type valueReq struct {
+	key  string
+	term string
+}
+
+// replayModel re-queries the solver for the concrete inputs and runs them on the real code.
 func replayModel(w *World, ob *Obligation, model map[string]string) *ReplayResult {
-	return &ReplayResult{Note: "replay not implemented for this obligation class"}
+	ri := ob.replay
+	if ri == nil || ob.script == nil {
+		return &ReplayResult{Note: "no replay information for this obligation"}
+	}
+	fn := ri.fn
+	g := &replayGen{w: w, ri: ri, pkg: fn.Pkg.Pkg}
+	// 1. collect the terms whose values are needed
+	for i, p := range fn.Params {
+		g.request(fmt.Sprintf("p%d", i), p.Type(), ri.params[i].T, 0)
+	}
+	for i, r := range ri.results {
+		for k, t := range r.T {
+			g.reqs = append(g.reqs, valueReq{fmt.Sprintf("r%d.%d", i, k), t.S})
+		}
+	}
+	if g.unsupported != "" {
+		return &ReplayResult{Note: "inputs of this function cannot be constructed by the replay harness: " + g.unsupported}
+	}
+	vals, raw := getValues(ob, g.reqs)
+	if vals == nil {
+		return &ReplayResult{Note: "the solver gave no values for the inputs", Output: raw}
+	}
+	g.vals = vals
+	// 2. Go source
+	var body strings.Builder
+	var args []string
+	for i, p := range fn.Params {
+		expr, ok := g.build(fmt.Sprintf("p%d", i), p.Type(), 0)
+		if !ok {
+			return &ReplayResult{Note: "inputs cannot be constructed: " + g.unsupported}
+		}
+		fmt.Fprintf(&body, "\tp%d := %s\n", i, expr)
+		args = append(args, fmt.Sprintf("p%d", i))
+	}
+	call := ""
+	if fn.Signature.Recv() != nil {
+		call = fmt.Sprintf("p0.%s(%s)", fn.Name(), strings.Join(args[1:], ", "))
+	} else {
+		call = fmt.Sprintf("%s(%s)", fn.Name(), strings.Join(args, ", "))
+	}
+	nres := fn.Signature.Results().Len()
+	var lhs []string
+	for i := 0; i < nres; i++ {
+		lhs = append(lhs, fmt.Sprintf("r%d", i))
+	}
+	if nres > 0 {
+		fmt.Fprintf(&body, "\t%s := %s\n", strings.Join(lhs, ", "), call)
+		for i := 0; i < nres; i++ {
+			fmt.Fprintf(&body, "\tfmt.Printf(\"REPLAY-RESULT %d %%s\\n\", verifReplayShow(r%d))\n", i, i)
+		}
+	} else {
+		fmt.Fprintf(&body, "\t%s\n", call)
+	}
+	src := fmt.Sprintf(`//go:build verif
+
+package %s
+
+import (
+	"fmt"
+	"reflect"
+	"testing"
+)
+
+func verifReplayShow(v interface{}) string {
+	rv := reflect.ValueOf(v)
+	if !rv.IsValid() {
+		return "nil"
+	}
+	switch rv.Kind() {
+	case reflect.Bool:
+		return fmt.Sprintf("bool:%%v", rv.Bool())
+	case reflect.Int, reflect.Int8, reflect.Int16, reflect.Int32, reflect.Int64:
+		return fmt.Sprintf("int:%%d", rv.Int())
+	case reflect.Uint, reflect.Uint8, reflect.Uint16, reflect.Uint32, reflect.Uint64, reflect.Uintptr:
+		return fmt.Sprintf("uint:%%d", rv.Uint())
+	case reflect.Interface, reflect.Ptr, reflect.Map, reflect.Slice, reflect.Func, reflect.Chan:
+		if rv.IsNil() {
+			return "nil"
+		}
+		return "nonnil"
+	}
+	return "other"
+}
+
+func TestVerifReplay(t *testing.T) {
+	defer func() {
+		if r := recover(); r != nil {
+			fmt.Printf("REPLAY-PANIC %%v\n", r)
+		}
+	}()
+%s	fmt.Println("REPLAY-DONE")
+}
+`, g.pkg.Name(), body.String())
+	res := &ReplayResult{Test: src, Inputs: map[string]string{}}
+	for _, rq := range g.reqs {
+		if v, ok := vals[rq.key]; ok && !strings.Contains(rq.key, "[") {
+			res.Inputs[rq.key] = v
+		}
+	}
+	// 3. run
+	out, cmdline, err := runReplayTest(w, g.pkg.Path(), src)
+	res.Output = out
+	res.Cmd = cmdline
+	if err != nil && !strings.Contains(out, "REPLAY-") {
+		res.Note = "replay test did not build or run: " + err.Error()
+		return res
+	}
+	panicked := strings.Contains(out, "REPLAY-PANIC")
+	switch ob.Class {
+	case "POST":
+		if panicked {
+			res.Reproduced = true
+			res.Note = "the real function panics on the model's input"
+			return res
+		}
+		res.Predicted = map[string]string{}
+		comparable, equal := 0, 0
+		for i, r := range ri.results {
+			got := ""
+			for _, ln := range strings.Split(out, "\n") {
+				if strings.HasPrefix(ln, fmt.Sprintf("REPLAY-RESULT %d ", i)) {
+					got = strings.TrimPrefix(ln, fmt.Sprintf("REPLAY-RESULT %d ", i))
+				}
+			}
+			want := g.showPredicted(fmt.Sprintf("r%d", i), fn.Signature.Results().At(i).Type(), r)
+			if want == "" || got == "" || got == "other" {
+				continue
+			}
+			res.Predicted[fmt.Sprintf("result%d", i)] = want + " (real run: " + got + ")"
+			comparable++
+			if want == got {
+				equal++
+			}
+		}
+		if comparable > 0 && comparable == equal {
+			res.Reproduced = true
+			res.Note = "the real function returns exactly the values the model predicts; the solver shows these violate the clause"
+		} else if comparable == 0 {
+			res.Note = "the results are not of a kind the harness can compare"
+		} else {
+			res.Note = "the real run's results differ from the model's prediction (the model relies on an abstraction)"
+		}
+	default:
+		if panicked {
+			res.Reproduced = true
+			res.Note = "the real function panics on the model's input"
+		} else {
+			res.Note = "the real function does not panic on the model's input"
+		}
+	}
+	return res
+}
+
+type replayGen struct {
+	w           *World
+	ri          *replayInfo
+	pkg         *types.Package
+	reqs        []valueReq
+	vals        map[string]string
+	unsupported string
+}
+
+func (g *replayGen) fail(msg string) {
+	if g.unsupported == "" {
+		g.unsupported = msg
+	}
+}
+
+func (g *replayGen) heapTerm(key string, sort Sort) (string, bool) {
+	name := sanitize(key) + "@0"
+	if !g.ri.names[name] {
+		return "", false
+	}
+	return name, true
+}
+
+// request registers the solver terms needed to build a value of type t whose leaves are terms.
+func (g *replayGen) request(key string, t types.Type, terms []Term, depth int) {
+	switch u := t.Underlying().(type) {
+	case *types.Basic:
+		g.reqs = append(g.reqs, valueReq{key, terms[0].S})
+		if isString(t) {
+			g.reqs = append(g.reqs, valueReq{key + ".strlen", "(strlen " + terms[0].S + ")"})
+			for j := 0; j < 64; j++ {
+				g.reqs = append(g.reqs, valueReq{fmt.Sprintf("%s.str[%d]", key, j), fmt.Sprintf("(strbyte %s (_ bv%d 64))", terms[0].S, j)})
+			}
+		}
+	case *types.Slice:
+		for k, nm := range []string{".arr", ".off", ".len", ".cap"} {
+			g.reqs = append(g.reqs, valueReq{key + nm, terms[k].S})
+		}
+		ls := leaves(u.Elem())
+		if len(ls) != 1 || (ls[0].Sort.BVWidth() == 0 && ls[0].Sort != SBool) {
+			return // elements stay zero
+		}
+		hk := "M." + heapTypeName(u.Elem()) + "[]"
+		if name, ok := g.heapTerm(hk, ""); ok {
+			for j := 0; j < replayElems; j++ {
+				g.reqs = append(g.reqs, valueReq{fmt.Sprintf("%s[%d]", key, j), fmt.Sprintf("(select (select %s %s) (bvadd %s (_ bv%d 64)))", name, terms[0].S, terms[1].S, j)})
+			}
+		}
+	case *types.Pointer:
+		g.reqs = append(g.reqs, valueReq{key, terms[0].S})
+		st, ok := u.Elem().Underlying().(*types.Struct)
+		if !ok || depth >= 2 {
+			return
+		}
+		g.requestStructAt(key+"*", u.Elem(), st, terms[0], depth+1)
+	case *types.Struct:
+		lo := 0
+		for i := 0; i < u.NumFields(); i++ {
+			n := nLeaves(u.Field(i).Type())
+			g.request(key+"."+u.Field(i).Name(), u.Field(i).Type(), terms[lo:lo+n], depth)
+			lo += n
+		}
+	case *types.Array:
+		ls := leaves(u.Elem())
+		if len(ls) == 1 && ls[0].Sort.BVWidth() > 0 && u.Len() <= replayElems {
+			for j := int64(0); j < u.Len(); j++ {
+				g.reqs = append(g.reqs, valueReq{fmt.Sprintf("%s[%d]", key, j), fmt.Sprintf("(select %s (_ bv%d 64))", terms[0].S, j)})
+			}
+		}
+	case *types.Interface, *types.Map, *types.Signature, *types.Chan:
+		g.reqs = append(g.reqs, valueReq{key, terms[0].S})
+	}
+}
+
+// requestStructAt asks for the fields of the struct object at reference ref in the entry heap.
+func (g *replayGen) requestStructAt(key string, named types.Type, st *types.Struct, ref Term, depth int) {
+	loc := objectLoc(ref, named)
+	for i := 0; i < st.NumFields(); i++ {
+		f := st.Field(i)
+		fl := loc.Field(i)
+		fkey := key + "." + f.Name()
+		switch fu := f.Type().Underlying().(type) {
+		case *types.Struct:
+			g.requestStructAt(fkey, f.Type(), fu, fl.Ref, depth)
+			continue
+		case *types.Array:
+			ls := leaves(fu.Elem())
+			if len(ls) == 1 && ls[0].Sort.BVWidth() > 0 && fu.Len() <= replayElems {
+				if name, ok := g.heapTerm("M."+heapTypeName(fu.Elem())+"[]", ""); ok {
+					for j := int64(0); j < fu.Len(); j++ {
+						g.reqs = append(g.reqs, valueReq{fmt.Sprintf("%s[%d]", fkey, j), fmt.Sprintf("(select (select %s %s) (_ bv%d 64))", name, fl.Ref.S, j)})
+					}
+				}
+			}
+			continue
+		}
+		var terms []Term
+		okAll := true
+		for _, lf := range leaves(f.Type()) {
+			name, ok := g.heapTerm(fl.Prefix+lf.Path, "")
+			if !ok {
+				okAll = false
+				break
+			}
+			terms = append(terms, Term{fmt.Sprintf("(select %s %s)", name, fl.Ref.S), lf.Sort})
+		}
+		if !okAll {
+			continue // never read by the function: stays zero
+		}
+		g.request(fkey, f.Type(), terms, depth)
+	}
+}
+
+func (g *replayGen) typeName(t types.Type) (string, bool) {
+	ok := true
+	s := types.TypeString(t, func(p *types.Package) string {
+		if p == g.pkg {
+			return ""
+		}
+		ok = false
+		return p.Name()
+	})
+	return s, ok
+}
+
+func parseBV(v string) (*big.Int, bool) {
+	v = strings.TrimSpace(v)
+	switch {
+	case strings.HasPrefix(v, "#x"):
+		n, ok := new(big.Int).SetString(v[2:], 16)
+		return n, ok
+	case strings.HasPrefix(v, "#b"):
+		n, ok := new(big.Int).SetString(v[2:], 2)
+		return n, ok
+	case strings.HasPrefix(v, "(_ bv"):
+		f := strings.Fields(v[5:])
+		n, ok := new(big.Int).SetString(f[0], 10)
+		return n, ok
+	case strings.HasPrefix(v, "( _ bv"):
+		f := strings.Fields(v[6:])
+		n, ok := new(big.Int).SetString(f[0], 10)
+		return n, ok
+	}
+	return nil, false
+}
+
+func parseIntVal(v string) (int64, bool) {
+	v = strings.ReplaceAll(strings.ReplaceAll(strings.TrimSpace(v), "(", " "), ")", " ")
+	f := strings.Fields(v)
+	if len(f) == 1 {
+		var n int64
+		_, err := fmt.Sscanf(f[0], "%d", &n)
+		return n, err == nil
+	}
+	if len(f) == 2 && f[0] == "-" {
+		var n int64
+		_, err := fmt.Sscanf(f[1], "%d", &n)
+		return -n, err == nil
+	}
+	return 0, false
+}
+
+func (g *replayGen) intLit(key string, t types.Type) (string, bool) {
+	w, signed, _ := isIntType(t)
+	v, ok := g.vals[key]
+	if !ok {
+		return "0", true
+	}
+	n, ok := parseBV(v)
+	if !ok {
+		return "", false
+	}
+	if signed {
+		n = toSigned(n, w)
+	}
+	tn, ok2 := g.typeName(t)
+	if !ok2 {
+		return "", false
+	}
+	if signed && n.Sign() < 0 && n.Cmp(new(big.Int).Neg(new(big.Int).Lsh(big.NewInt(1), uint(w-1)))) == 0 {
+		// most negative value: -(1<<(w-1)) does not fit as a positive literal
+		return fmt.Sprintf("%s(-%s - 1)", tn, new(big.Int).Sub(new(big.Int).Neg(n), big.NewInt(1)).String()), true
+	}
+	return fmt.Sprintf("%s(%s)", tn, n.String()), true
+}
+
+// build returns a Go expression constructing the value registered under key.
+func (g *replayGen) build(key string, t types.Type, depth int) (string, bool) {
+	tn, okName := g.typeName(t)
+	switch u := t.Underlying().(type) {
+	case *types.Basic:
+		if _, _, ok := isIntType(t); ok {
+			s, ok := g.intLit(key, t)
+			if !ok {
+				g.fail("value of " + key)
+			}
+			return s, ok
+		}
+		if isBool(t) {
+			return fmt.Sprintf("%s(%v)", tn, strings.TrimSpace(g.vals[key]) == "true"), okName
+		}
+		if isString(t) {
+			n, ok := parseBV(g.vals[key+".strlen"])
+			if !ok || n.Cmp(big.NewInt(64)) > 0 {
+				g.fail("string longer than the harness builds")
+				return "", false
+			}
+			var bs []byte
+			for j := int64(0); j < n.Int64(); j++ {
+				b, _ := parseBV(g.vals[fmt.Sprintf("%s.str[%d]", key, j)])
+				if b == nil {
+					b = big.NewInt(0)
+				}
+				bs = append(bs, byte(b.Int64()))
+			}
+			return fmt.Sprintf("%s(%q)", tn, string(bs)), okName
+		}
+		g.fail("basic type " + t.String())
+		return "", false
+	case *types.Slice:
+		etn, ok := g.typeName(u.Elem())
+		if !ok {
+			g.fail("slice element type from another package")
+			return "", false
+		}
+		ln, ok1 := parseBV(g.vals[key+".len"])
+		cp, ok2 := parseBV(g.vals[key+".cap"])
+		arr, ok3 := parseIntVal(g.vals[key+".arr"])
+		if !ok1 || !ok2 {
+			g.fail("slice header of " + key)
+			return "", false
+		}
+		if ok3 && arr == 0 && ln.Sign() == 0 {
+			return fmt.Sprintf("%s(nil)", tn), okName
+		}
+		if ln.Cmp(big.NewInt(1<<22)) > 0 {
+			g.fail(fmt.Sprintf("model needs a slice of %s elements (too large to build)", ln))
+			return "", false
+		}
+		if cp.Cmp(ln) < 0 || cp.Cmp(big.NewInt(1<<22)) > 0 {
+			cp = ln
+		}
+		var elems []string
+		lsz := leaves(u.Elem())
+		if len(lsz) == 1 && (lsz[0].Sort.BVWidth() > 0 || lsz[0].Sort == SBool) {
+			for j := int64(0); j < ln.Int64() && j < replayElems; j++ {
+				ek := fmt.Sprintf("%s[%d]", key, j)
+				if _, have := g.vals[ek]; !have {
+					break
+				}
+				if lsz[0].Sort == SBool {
+					elems = append(elems, fmt.Sprintf("%d: %v", j, strings.TrimSpace(g.vals[ek]) == "true"))
+					continue
+				}
+				lit, ok := g.intLit(ek, u.Elem())
+				if !ok {
+					break
+				}
+				if !strings.HasSuffix(lit, "(0)") {
+					elems = append(elems, fmt.Sprintf("%d: %s", j, lit))
+				}
+			}
+		}
+		return fmt.Sprintf("func() %s { s := make([]%s, %s, %s); for k, v := range map[int]%s{%s} { s[k] = v }; return s }()", tn, etn, ln, cp, etn, strings.Join(elems, ", ")), okName
+	case *types.Pointer:
+		ref, ok := parseIntVal(g.vals[key])
+		if ok && ref == 0 {
+			return fmt.Sprintf("(%s)(nil)", tn), okName
+		}
+		st, isStruct := u.Elem().Underlying().(*types.Struct)
+		if !isStruct || depth >= 2 {
+			if depth >= 2 {
+				return fmt.Sprintf("(%s)(nil)", tn), okName
+			}
+			g.fail("pointer to " + u.Elem().String())
+			return "", false
+		}
+		lit, ok := g.buildStruct(key+"*", u.Elem(), st, depth+1)
+		return "&" + lit, ok
+	case *types.Struct:
+		return g.buildStruct(key, t, u, depth)
+	case *types.Array:
+		var elems []string
+		if _, _, ok := isIntType(u.Elem()); ok {
+			for j := int64(0); j < u.Len() && j < replayElems; j++ {
+				ek := fmt.Sprintf("%s[%d]", key, j)
+				if _, have := g.vals[ek]; !have {
+					continue
+				}
+				if lit, ok := g.intLit(ek, u.Elem()); ok && !strings.HasSuffix(lit, "(0)") {
+					elems = append(elems, fmt.Sprintf("%d: %s", j, lit))
+				}
+			}
+		}
+		return fmt.Sprintf("%s{%s}", tn, strings.Join(elems, ", ")), okName
+	case *types.Interface, *types.Map, *types.Signature, *types.Chan:
+		return fmt.Sprintf("(%s)(nil)", tn), okName
+	}
+	g.fail("type " + t.String())
+	return "", false
+}
+
+func (g *replayGen) buildStruct(key string, named types.Type, st *types.Struct, depth int) (string, bool) {
+	tn, ok := g.typeName(named)
+	if !ok {
+		g.fail("struct type from another package: " + named.String())
+		return "", false
+	}
+	var fields []string
+	for i := 0; i < st.NumFields(); i++ {
+		f := st.Field(i)
+		if f.Name() == "_" {
+			continue
+		}
+		sub := &replayGen{w: g.w, ri: g.ri, pkg: g.pkg, vals: g.vals}
+		expr, ok := sub.build(key+"."+f.Name(), f.Type(), depth)
+		if !ok {
+			continue // leave the field at its zero value
+		}
+		fields = append(fields, fmt.Sprintf("%s: %s", f.Name(), expr))
+	}
+	return fmt.Sprintf("%s{%s}", tn, strings.Join(fields, ", ")), true
+}
+
+// showPredicted renders the model's value of a result the way verifReplayShow prints real results.
+func (g *replayGen) showPredicted(key string, t types.Type, v Val) string {
+	if len(v.T) != 1 {
+		return ""
+	}
+	val, ok := g.vals[key+".0"]
+	if !ok {
+		return ""
+	}
+	if w, signed, isInt := isIntType(t); isInt {
+		n, ok := parseBV(val)
+		if !ok {
+			return ""
+		}
+		if signed {
+			return "int:" + toSigned(n, w).String()
+		}
+		return "uint:" + n.String()
+	}
+	if isBool(t) {
+		return "bool:" + strings.TrimSpace(val)
+	}
+	switch t.Underlying().(type) {
+	case *types.Interface, *types.Pointer, *types.Map:
+		n, ok := parseIntVal(val)
+		if !ok {
+			return ""
+		}
+		if n == 0 {
+			return "nil"
+		}
+		return "nonnil"
+	}
+	return ""
+}
+
+// getValues runs one solver on the failing query and asks for the values of the requested terms.
+func getValues(ob *Obligation, reqs []valueReq) (map[string]string, string) {
+	var terms []string
+	for _, r := range reqs {
+		terms = append(terms, r.term)
+	}
+	for _, bound := range []int64{64, 4096, 1 << 20, 0} {
+		res, raw := getValuesBounded(ob, reqs, terms, bound)
+		if res != nil {
+			return res, raw
+		}
+	}
+	return nil, "no solver produced values"
+}
+
+// getValuesBounded prefers small inputs: slice and string lengths are first required to be <= bound.
+func getValuesBounded(ob *Obligation, reqs []valueReq, terms []string, bound int64) (map[string]string, string) {
+	q := ob.Query()
+	if bound > 0 {
+		for _, r := range reqs {
+			if strings.HasSuffix(r.key, ".len") || strings.HasSuffix(r.key, ".cap") || strings.HasSuffix(r.key, ".strlen") {
+				q += fmt.Sprintf("(assert (bvule %s (_ bv%d 64)))\n", r.term, bound)
+			}
+		}
+	}
+	q += "(check-sat)\n(get-value (" + strings.Join(terms, "\n ") + "))\n"
+	f, err := os.CreateTemp("", "govc-replay-*.smt2")
+	if err != nil {
+		return nil, err.Error()
+	}
+	defer os.Remove(f.Name())
+	f.WriteString(q)
+	f.Close()
+	for _, argv := range [][]string{{"z3-new", "-T:30", f.Name()}, {"/usr/bin/z3", "-T:30", f.Name()}} {
+		ctx, cancel := context.WithTimeout(context.Background(), 70*time.Second)
+		cmd := exec.CommandContext(ctx, argv[0], argv[1:]...)
+		var out bytes.Buffer
+		cmd.Stdout = &out
+		cmd.Run()
+		cancel()
+		txt := out.String()
+		if !strings.HasPrefix(strings.TrimSpace(txt), "sat") {
+			continue
+		}
+		toks := tokenizeSexp(txt[strings.Index(txt, "sat")+3:])
+		// ( ( term value ) ( term value ) ... )
+		res := map[string]string{}
+		i := 0
+		if i < len(toks) && toks[i] == "(" {
+			i++
+		}
+		for k := 0; k < len(reqs) && i < len(toks); k++ {
+			if toks[i] != "(" {
+				break
+			}
+			i++
+			i = skipSexp(toks, i) // the term
+			j := skipSexp(toks, i)
+			res[reqs[k].key] = strings.Join(toks[i:j], " ")
+			i = j
+			if i < len(toks) && toks[i] == ")" {
+				i++
+			}
+		}
+		if len(res) > 0 {
+			return res, ""
+		}
+	}
+	return nil, "no solver produced values"
+}
+
+func runReplayTest(w *World, pkgPath, src string) (string, string, error) {
+	rel := strings.TrimPrefix(strings.TrimPrefix(pkgPath, modulePath), "/")
+	dir := filepath.Join(w.RepoDir, rel)
+	tf, err := os.CreateTemp("", "govc-replay-*_test.go")
+	if err != nil {
+		return "", "", err
+	}
+	defer os.Remove(tf.Name())
+	tf.WriteString(src)
+	tf.Close()
+	repl := map[string]string{filepath.Join(dir, "zz_replay_verif_test.go"): tf.Name()}
+	// lemma files of this package
+	lem, _ := filepath.Glob(filepath.Join(w.VerifDir, "lemmas", rel, "*.go"))
+	for _, l := range lem {
+		repl[filepath.Join(dir, "zz_lemma_verif_"+filepath.Base(l))] = l
+	}
+	ovf, _ := os.CreateTemp("", "govc-replay-ov-*.json")
+	data, _ := json.Marshal(map[string]interface{}{"Replace": repl})
+	ovf.Write(data)
+	ovf.Close()
+	defer os.Remove(ovf.Name())
+	args := []string{"test", "-tags", "verif", "-overlay", ovf.Name(), "-vet=off", "-count=1", "-v", "-timeout", "60s", "-run", "^TestVerifReplay$", "."}
+	ctx, cancel := context.WithTimeout(context.Background(), 180*time.Second)
+	defer cancel()
+	cmd := exec.CommandContext(ctx, "sh", "-c", "ulimit -v 8000000; exec go "+strings.Join(args, " "))
+	cmd.Dir = dir
+	cmd.Env = goEnv()
+	var out bytes.Buffer
+	cmd.Stdout = &out
+	cmd.Stderr = &out
+	err = cmd.Run()
+	o := out.String()
+	if len(o) > 3000 {
+		o = o[:3000]
+	}
+	return o, "cd " + dir + " && go " + strings.Join(args, " "), err
 }
